@@ -211,7 +211,9 @@ pub fn proc_case(u: &mut Unstructured, forced: Option<p::Focus>) -> Result<(p::F
         });
     }
     if u.ratio(1u8, 2u8)? {
-        ops.push(if u.ratio(1u8, 4u8)? { p::HOp::DropUnwinding } else { p::HOp::Drop });
+        // (no DropUnwinding here: libFuzzer's panic hook aborts the process on any panic, caught or not)
+        let _ = u.ratio(1u8, 4u8)?;
+        ops.push(p::HOp::Drop);
     }
     Ok((focus, p::ProcCase { plan, ops }))
 }
